@@ -64,7 +64,12 @@ func (h H) transferTargetEligibility(rule string) {
 		h.C.Check(rule+" only-if-chosen", h.site(fn, gcp, k), r.OK, h.pos(c), "timeout-now can be sent without a chosen target")
 	}
 	for i, g := range h.P.GoSites(fn) {
-		okArg := len(g.Call.Args) >= 1 && fi.Sym(g.Call.Args[0]).String() == "leader.transfer.respCh"
+		okArg := false
+		for _, a := range g.Call.Args {
+			if fi.Sym(a).String() == "leader.transfer.respCh" {
+				okArg = true
+			}
+		}
 		h.C.Check(rule+" reply-channel", fmt.Sprintf("(*leader).tryTransfer go#%d", i+1), okArg, h.pos(g), "the timeout-now goroutine must get the reply channel by value")
 	}
 	// validateTransfer: nil => no transfer in progress, more than one voter, target (if given) is another voter of the latest configuration
